@@ -71,7 +71,7 @@ def fmtIsc : Option ConnID → String
 
 /-- the spec facts of an `S[ … ]` section (`S[ nil ]`: no spec) -/
 def specOf (toks : List String) : Option Spec :=
-  if toks == ["nil"] then none else
+  if toks.head? == some "nil" then none else
   some { scidLen := dNat ((getKV toks "scid").getD "0"), dcidLen := dNat ((getKV toks "dcid").getD "0"),
          hasQTP := getKV toks "qtp" == some "1", iscid := iscOf ((getKV toks "isc").getD "N"),
          suppIscid := getKV toks "supp15" == some "1", ksPinned := getKV toks "ks" == some "1",
